@@ -688,18 +688,29 @@ class ScalarTable:
             self.ids[id(strat)] = i + 1
         self.keep = []
         for i, r in enumerate(self.regs):
-            if r["name"] in ("Money", "Int", "Long"):
-                strat = st.integers(0, 5).map(nodes.Int)
-            else:
-                strat = st.sampled_from(COLORS).map(nodes.String)
-            self.keep.append(strat)
-            self.ids[id(strat)] = 100 + i
-            try:
-                schemathesis.graphql.scalar(r["name"] if r["name"] is not None else 123, strat if r["ok_strategy"] else "not a strategy")
-                self.results.append([[k, self.ids.get(id(v), -1)] for k, v in scalars.CUSTOM_SCALARS.items()])
-            except IncorrectUsage:
-                self.results.append("IncorrectUsage")
+            self.results.append(self.register(r, 100 + i))
         return self
+
+    def register(self, r, ident):
+        """One schemathesis.graphql.scalar(...) call; the strategy object gets the number `ident`."""
+        from hypothesis import strategies as st
+
+        import schemathesis
+        from schemathesis.core.errors import IncorrectUsage
+        from schemathesis.graphql import nodes
+        from schemathesis.specs.graphql import scalars
+
+        if r["name"] in ("Money", "Int", "Long"):
+            strat = st.integers(0, 5).map(nodes.Int)
+        else:
+            strat = st.sampled_from(COLORS).map(nodes.String)
+        self.keep.append(strat)
+        self.ids[id(strat)] = ident
+        try:
+            schemathesis.graphql.scalar(r["name"] if r["name"] is not None else 123, strat if r["ok_strategy"] else "not a strategy")
+            return [[k, self.ids.get(id(v), -1)] for k, v in scalars.CUSTOM_SCALARS.items()]
+        except IncorrectUsage:
+            return "IncorrectUsage"
 
     def __exit__(self, *a):
         from schemathesis.specs.graphql import scalars
@@ -898,6 +909,127 @@ def stage_strategy_call(chk, cases):
         if got != mod:
             chk.disagree("schemathesis.graphql.scalar vs Model_C20.register", case["registrations"], got, mod)
     chk.stages["strategy_call_and_scalar_table"] = {"recorded_calls": len(metas), "scalar_registrations": len(reg_metas)}
+
+
+def c_cfg(cfg) -> str:
+    return "{| g_allow_x00 := %s; g_allow_null := %s; g_codec := %s |}" % (
+        cbool(cfg["allow_x00"]),
+        cbool(cfg["allow_null"]),
+        copt(None if cfg["codec"] is None else cstr(cfg["codec"]), "str"),
+    )
+
+
+def generation_config_of(cfg):
+    from schemathesis.generation import GenerationConfig
+
+    return GenerationConfig(allow_x00=cfg["allow_x00"], graphql_allow_null=cfg["allow_null"], codec=cfg["codec"])
+
+
+def gen_events(rng) -> list[dict]:
+    """An access history on one operation object: draws interleaved with reconfigurations and scalar registrations."""
+    ev = [{"draw": None}] if rng.random() < 0.7 else []
+    for _ in range(rng.randint(2, 6)):
+        k = rng.random()
+        if k < 0.3:
+            ev.append({"configure": gen_config(rng)})
+        elif k < 0.5:
+            r = gen_registrations(rng)
+            if r:
+                ev.append({"register": r[0]})
+        else:
+            ev.append({"draw": gen_config(rng) if rng.random() < 0.35 else None})
+    ev.append({"draw": None})
+    return ev
+
+
+def stage_call_histories(chk, cases):
+    """The recording stub across SEVERAL draws of ONE operation object (schema[type][field], kept by the caller):
+    every draw must call the factory, with the configuration and scalar table of that moment."""
+    from schemathesis.specs.graphql import schemas as impl
+
+    exprs, metas = [], []
+    for case in cases:
+        schema = configure_generation(load_sdl(case["sdl"]), case["config"])
+        ops = [r.ok() for r in schema.get_all_operations()]
+        first = ops[case["op_index"] % len(ops)]
+        tname, fname = first.definition.type_.name, first.definition.field_name
+        op = schema[tname][fname]
+        d = op.definition
+        got = []
+        with ScalarTable([]) as table, Recorder() as rec:
+            extra = [[k, table.ids[id(v)]] for k, v in impl.get_extra_scalar_strategies().items()]
+            terms = []
+            for i, e in enumerate(case["events"]):
+                if "configure" in e:
+                    schema.configure(generation=generation_config_of(e["configure"]))
+                    terms.append(f"EConfigure {c_cfg(e['configure'])}")
+                elif "register" in e:
+                    r = e["register"]
+                    table.register(r, 100 + i)
+                    terms.append(f"ERegister {cbool(r['name'] is not None)} {cbool(r['ok_strategy'])} {cstr(r['name'] or '')} {cN(100 + i)}")
+                else:
+                    pc = e["draw"]
+                    same = schema[tname][fname]
+                    rec.calls.clear()
+                    try:
+                        draw_one(same.as_strategy(generation_config=generation_config_of(pc)) if pc is not None else same.as_strategy())
+                    except Exception as exc:  # noqa: BLE001
+                        got.append(f"raises {type(exc).__name__}")
+                        terms.append(f"EDraw {copt(None if pc is None else c_cfg(pc), 'gen_config')}")
+                        continue
+                    terms.append(f"EDraw {copt(None if pc is None else c_cfg(pc), 'gen_config')}")
+                    if same is not op:
+                        got.append("another operation object")
+                    elif not rec.calls:
+                        got.append("factory not called")
+                    else:
+                        call = rec.calls[-1]
+                        got.append(
+                            {
+                                "factory": call["factory"],
+                                "fields": None if call.get("fields") is None else list(call["fields"]),
+                                "scalars": [[k, table.ids.get(id(v), -1)] for k, v in (call.get("custom_scalars") or {}).items()],
+                                "allow_x00": call.get("allow_x00", "absent"),
+                                "allow_null": call.get("allow_null", "absent"),
+                                "codec": call.get("codec", "absent"),
+                            }
+                        )
+        op_term = "{| o_root := %s; o_type := %s; o_field := %s |}" % (
+            {"QUERY": "RQuery", "MUTATION": "RMutation"}[d.root_type.name],
+            cstr(d.type_.name),
+            cstr(d.field_name),
+        )
+        st0 = "{| st_cfg := %s; st_reg := (@nil (str * N)) |}" % c_cfg(case["config"])
+        exprs.append(f"run_events {c_table(extra)} {op_term} {st0} {clist(terms, 'event')}")
+        metas.append((case, f"{tname}.{fname}", got))
+    model = core.coq_eval(IMPORTS, exprs)
+    bad = 0
+    for (case, label, got), m in zip(metas, model):
+        mod = []
+        for rec_, tbl in m:
+            mod.append(
+                {
+                    "factory": rec_["sc_factory"],
+                    "fields": [pstr(x) for x in rec_["sc_fields"]],
+                    "scalars": [[pstr(k), v] for k, v in tbl],
+                    "allow_x00": rec_["sc_allow_x00"],
+                    "allow_null": rec_["sc_allow_null"],
+                    "codec": None if rec_["sc_codec"] is None else pstr(core.popt(rec_["sc_codec"])),
+                }
+            )
+        canon = {**case, "operation": label}
+        chk.seen({"call_history": canon}, len(got) > 1)
+        chk.count(f"call_history:draws={len(got)}")
+        if got != mod:
+            bad += 1
+            i = next((j for j, (a, b) in enumerate(zip(got, mod)) if a != b), min(len(got), len(mod)))
+            chk.disagree(
+                f"factory calls over an access history of one operation object vs Model_C20.run_events (draw #{i})",
+                canon,
+                got[i] if i < len(got) else None,
+                mod[i] if i < len(mod) else None,
+            )
+    chk.stages["strategy_call_histories"] = {"histories": len(metas), "draws": sum(len(g) for _, _, g in metas), "disagreements": bad}
 
 
 def stage_scalar_constants(chk):
@@ -1217,16 +1349,177 @@ def run_oracle_case(case: dict, draws: int, max_ops: int, collect=None) -> list[
     return failures
 
 
+# ---- oracle over HISTORIES on one schema object / one operation object -------------------------------
+PALETTES = [COLORS, ["CYAN", "MAGENTA"]]
+MONEY_RANGES = [(0, 10**6), (-9, -1)]
+DATE_WORDS = ["D-day", "E-day"]
+
+
+def scalar_variant(name: str, k: int):
+    """(strategy, literal check) number k for a scalar a user may (re)register between two uses of an operation."""
+    import graphql
+    from hypothesis import strategies as st
+
+    from schemathesis.graphql import nodes
+
+    if name == "Color":
+        pal = PALETTES[k]
+        return st.sampled_from(pal).map(nodes.String), (lambda n: isinstance(n, graphql.StringValueNode) and n.value in pal)
+    if name == "Money":
+        lo, hi = MONEY_RANGES[k]
+        return st.integers(lo, hi).map(nodes.Int), (lambda n: isinstance(n, graphql.IntValueNode) and lo <= int(n.value) <= hi)
+    word = DATE_WORDS[k]
+    return st.just(nodes.String(word)), (lambda n: isinstance(n, graphql.StringValueNode) and n.value == word)
+
+
+def oracle_history_case(rng) -> dict:
+    g = gen_sdl(rng)
+    loose = {"allow_x00": True, "allow_null": True, "codec": "utf-8"}
+    steps = []
+    for i in range(rng.choice([2, 2, 3])):
+        step: dict = {"configure": None, "percall": None, "register": {}, "seed": rng.randrange(2**31)}
+        if i > 0 or rng.random() < 0.3:
+            cfg = gen_config(rng)
+            if i > 0 and rng.random() < 0.5:
+                cfg = {"allow_x00": False, "allow_null": False, "codec": rng.choice(["ascii", "latin-1"])}
+            step[rng.choice(["configure", "percall"])] = cfg
+        for name in g["unknown_scalars"] + (["Date"] if "scalar Date" in g["sdl"] and rng.random() < 0.4 else []):
+            if rng.random() < (0.6 if i == 0 else 0.4):
+                step["register"][name] = rng.randrange(2)
+        steps.append(step)
+    return {"sdl": g["sdl"], "unknown": g["unknown_scalars"], "init_config": loose if rng.random() < 0.6 else gen_config(rng), "steps": steps, "op_seed": rng.randrange(2**31)}
+
+
+def run_oracle_history(case: dict, draws: int, max_ops: int = 2, collect=None) -> list[dict]:
+    """One schema object; operations taken from schema[type][field] and KEPT; every step may change the generation
+    config (schema.configure / per-call) and (re)register scalars, then draws from the SAME operation object.  Each batch
+    is judged against the configuration and the scalar strategies in effect for THAT batch."""
+    import random as _r
+
+    import graphql
+    import hypothesis
+    from hypothesis import HealthCheck, Phase
+    from hypothesis.errors import InvalidArgument
+
+    import schemathesis
+    from schemathesis.specs.graphql import scalars
+
+    gs = graphql.build_schema(case["sdl"])
+    schema = configure_generation(load_sdl(case["sdl"]), case["init_config"])
+    local = _r.Random(case["op_seed"])
+    cands = [r.ok() for r in schema.get_all_operations()]
+    with_args = [o for o in cands if o.definition.raw.args]
+    local.shuffle(with_args)
+    local.shuffle(cands)
+    picked = (with_args + [o for o in cands if o not in with_args])[:max_ops]
+    held = [(o.definition.type_.name, o.definition.field_name, schema[o.definition.type_.name][o.definition.field_name]) for o in picked]
+    saved = dict(scalars.CUSTOM_SCALARS)
+    failures = []
+    checks: dict = {}
+    current = dict(case["init_config"])
+    try:
+        scalars.CUSTOM_SCALARS.clear()
+        for si, step in enumerate(case["steps"]):
+            if step["configure"] is not None:
+                current = dict(step["configure"])
+                schema.configure(generation=generation_config_of(current))
+            effective = step["percall"] if step["percall"] is not None else current
+            for name, k in step["register"].items():
+                strat, check = scalar_variant(name, k)
+                schemathesis.graphql.scalar(name, strat)
+                checks[name] = check
+            for tname, fname, op in held:
+                if schema[tname][fname] is not op:
+                    failures.append({"operation": f"{tname}.{fname}", "step": si, "complaints": ["schema[type][field] returned another operation object"]})
+                    continue
+                d = op.definition
+                strategy = op.as_strategy(generation_config=generation_config_of(step["percall"])) if step["percall"] is not None else op.as_strategy()
+                got = []
+
+                @hypothesis.seed(step["seed"])
+                @hypothesis.settings(database=None, max_examples=draws, deadline=None, suppress_health_check=list(HealthCheck), phases=[Phase.generate])
+                @hypothesis.given(strategy)
+                def test(c):
+                    got.append(c)
+
+                try:
+                    test()
+                except InvalidArgument as exc:
+                    if [u for u in case["unknown"] if u not in checks] and "is not supported" in str(exc):
+                        if collect is not None:
+                            collect("oracle_history:no_strategy_for_custom_scalar")
+                        continue
+                    failures.append({"operation": op.label, "step": si, "complaints": [f"strategy raised InvalidArgument: {exc}"]})
+                    continue
+                except hypothesis.errors.Unsatisfiable as exc:
+                    if not effective["allow_null"] and recursive_inputs(gs):
+                        continue
+                    failures.append({"operation": op.label, "step": si, "complaints": [f"strategy raised Unsatisfiable: {str(exc)[:120]}"]})
+                    continue
+                except Exception as exc:  # noqa: BLE001
+                    failures.append({"operation": op.label, "step": si, "complaints": [f"strategy raised {type(exc).__name__}: {str(exc)[:200]}"]})
+                    continue
+                for c in got:
+                    complaints = judge_document(gs, c.body, d.root_type.name, d.field_name, effective, checks)
+                    if c.operation is not op:
+                        complaints.append("case.operation is another operation")
+                    if collect is not None:
+                        collect("oracle_history:draws")
+                        if si > 0:
+                            collect("oracle_history:draws_after_a_change")
+                    if complaints:
+                        failures.append(
+                            {"operation": op.label, "step": si, "effective_config": effective, "document": c.body, "complaints": [f"(use #{si + 1} of the same operation object) " + x if si else x for x in complaints]}
+                        )
+                        break
+    finally:
+        scalars.CUSTOM_SCALARS.clear()
+        scalars.CUSTOM_SCALARS.update(saved)
+    return failures
+
+
+def report_oracle_history(chk, case, fails):
+    for f in fails:
+        plain = [x.split(") ", 1)[-1] if x.startswith("(use #") else x for x in f["complaints"]]
+        region = "null_for_unsupported_scalar" if plain == [NULL_UNSUPPORTED] else None
+        chk.fail("GraphQL case drawn later from the same operation does not respect the configuration in effect: " + "; ".join(f["complaints"])[:300], {"history": case, **f}, region=region)
+
+
+def stage_oracle_histories(chk, n, draws, deadline=None):
+    import time
+
+    done = 0
+    for _ in range(n):
+        if deadline is not None and time.time() > deadline:
+            chk.notes.append(f"oracle_histories stopped at the time budget after {done} histories")
+            break
+        case = oracle_history_case(chk.rng)
+        report_oracle_history(chk, case, run_oracle_history(case, draws, collect=chk.count))
+        chk.seen({"oracle_history": case}, True)
+        done += 1
+    chk.stages["oracle_histories"] = {
+        "label": "TESTING: one schema object, operations kept from schema[type][field], config / scalar changes between batches; each batch judged against the configuration in effect",
+        "histories": done,
+        "draws": chk.hist.get("oracle_history:draws", 0),
+        "draws_after_a_change": chk.hist.get("oracle_history:draws_after_a_change", 0),
+    }
+
+
 def report_oracle(chk, case, fails):
     for f in fails:
         region = "null_for_unsupported_scalar" if f["complaints"] == [NULL_UNSUPPORTED] else None
         chk.fail("generated GraphQL case is not valid for the schema / does not target its field: " + "; ".join(f["complaints"])[:300], {**case, **f}, region=region)
 
 
-def stage_oracle(chk, n_schemas, draws, max_ops):
+def stage_oracle(chk, n_schemas, draws, max_ops, deadline=None):
+    import time
+
     rng = chk.rng
     total = 0
     for _ in range(n_schemas):
+        if deadline is not None and (time.time() > deadline or len(chk.failures) >= 12):
+            chk.notes.append(f"boosted oracle search stopped after {total} schemas (time budget / enough failing inputs)")
+            break
         case = oracle_case(rng)
         fails = run_oracle_case(case, draws, max_ops, collect=chk.count)
         chk.seen({"oracle": case}, True)
@@ -1316,7 +1609,7 @@ def run(chk: core.Check):
     stage_lookups(chk, look)
 
     calls = []
-    for _ in range(50 if quick else 400):
+    for _ in range(36 if quick else 300):
         g = gen_sdl(rng)
         calls.append(
             {
@@ -1328,31 +1621,50 @@ def run(chk: core.Check):
             }
         )
     stage_strategy_call(chk, calls)
+    hist = [c["call_history"] for c in corpus if "call_history" in c]
+    for _ in range(30 if quick else 300):
+        g = gen_sdl(rng)
+        hist.append({"sdl": g["sdl"], "config": gen_config(rng), "op_index": rng.randrange(50), "events": gen_events(rng)})
+    stage_call_histories(chk, hist)
     stage_scalar_constants(chk)
     stage_prepare_body(chk, 60 if quick else 600)
 
     for f in chk.findings:
         chk.known(f, witness_fails(f["witness"]))
 
+    # a broken proof / tie multiplies the search by 10, but the whole check stays within a wall-clock budget and the
+    # search stops once it has a dozen concrete failing inputs
+    import time
+
     boost = 10 if chk.broken else 1
+    deadline = (chk.t0 + (200 if quick else 800)) if boost > 1 else None
     for c in corpus:
         if "oracle" in c:
             report_oracle(chk, c["oracle"], run_oracle_case(c["oracle"], 30, 50, collect=chk.count))
             chk.seen({"oracle": c["oracle"]}, True)
+        if "oracle_history" in c:
+            report_oracle_history(chk, c["oracle_history"], run_oracle_history(c["oracle_history"], 30, collect=chk.count))
+            chk.seen({"oracle_history": c["oracle_history"]}, True)
+    # histories first: they are the only place where a configuration remembered by an operation object can show
     if quick:
-        stage_oracle(chk, 45 * boost, 12, 3)
+        stage_oracle_histories(chk, 14 * boost, 10, None if deadline is None else deadline - 60)
+        stage_oracle(chk, 34 * boost, 12, 3, deadline)
     else:
-        stage_oracle(chk, 350 * boost, 25, 4)
+        stage_oracle_histories(chk, 150 * boost, 20, None if deadline is None else deadline - 300)
+        stage_oracle(chk, 300 * boost, 25, 4, deadline)
 
 
 def replay(payload) -> int:
     for f in payload.get("failing_inputs", []):
         case = f.get("input") or {}
         print("failing input:", f.get("what"))
-        if "history" in case:
+        if isinstance(case.get("history"), list):
             print("  schema[type][field] history:", case["history"])
             print("  implementation:", impl_lookups(load_sdl(case["sdl"]), case["history"]))
             print("  expected      :", expected_lookups(case["sdl"], case["history"]))
+        elif "history" in case and isinstance(case["history"], dict) and "steps" in case["history"]:
+            fails = run_oracle_history(case["history"], 50)
+            print("  history re-run:", "FAILS" if fails else "passes", json.dumps(fails[:1], default=str)[:700])
         elif "seed" in case and "config" in case:
             fails = run_oracle_case(case, 50, 50)
             print("  re-drawn with the recorded seed:", "FAILS" if fails else "passes", json.dumps(fails[:1], default=str)[:600])
